@@ -84,21 +84,12 @@ def decode(j):
     raise ValueError(t)
 
 
-# ------------------------------------------------------------------------------------------ guards (hand table)
-
-R = lambda lo, hi, ls=False, hs=False: ["range", lo, hi, ls, hs]  # noqa: E731
-A = lambda lo, s=True: ["above", lo, s]  # noqa: E731
-GEO = {"row": A(0), "col": A(0), "total_thickness": R(0, 10000), "pixel_vert_size": R(0, 1000),
-       "pixel_horz_size": R(0, 1000), "pixel_scale": R(0, 1000)}
-GUARDS = {
-    "Environment": {"temperature": R(0, 1000, True, False), "wavelength": A(0)},
-    "Characteristics": {"quantum_efficiency": R(0, 1), "charge_to_volt_conversion": R(0, 100),
-                        "pre_amplification": R(0, 10000), "full_well_capacity": R(0, 10 ** 7)},
-    "APDCharacteristics": {"quantum_efficiency": R(0, 1), "avalanche_gain": R(1, 1000),
-                           "adc_bit_resolution": R(4, 64), "full_well_capacity": R(0, 10 ** 7)},
-}
-for _g in ("Geometry", "CCDGeometry", "CMOSGeometry", "MKIDGeometry", "APDGeometry"):
-    GUARDS[_g] = GEO
+# ------------------------------------------------------------------------------------------ guards
+# The range guard of a property setter is NOT stated here: the driver only names the class that defines the setter and
+# the property; the case files look the guard up in Gen_C08.src_setter_guards (regenerated from the source).
+GUARD_OWNER = {"Environment": "Environment", "Characteristics": "Characteristics", "APDCharacteristics": "APDCharacteristics",
+               "Geometry": "Geometry", "CCDGeometry": "Geometry", "CMOSGeometry": "Geometry", "MKIDGeometry": "Geometry",
+               "APDGeometry": "Geometry"}
 
 # classes whose property values are read for the snapshot (all their properties but these)
 READ_ALL = {"Geometry", "CCDGeometry", "CMOSGeometry", "MKIDGeometry", "APDGeometry", "Environment",
@@ -109,6 +100,13 @@ READ_SOME = {"ModelFunction": {"name", "arguments"}, "DetectionPipeline": None, 
              "CCD": {"geometry", "environment", "characteristics"}, "CMOS": {"geometry", "environment", "characteristics"},
              "MKID": {"geometry", "environment", "characteristics"}, "APD": {"geometry", "environment", "characteristics"}}
 DESCEND = {"Processor", "CCD", "CMOS", "MKID", "APD", "DetectionPipeline", "ModelGroup", "ModelFunction", "Arguments"} | READ_ALL
+
+
+def is_plain(v) -> bool:
+    """a value (what a setting holds), as opposed to an object that holds settings — stated independently of the code"""
+    if isinstance(v, (list, tuple)):
+        return all(is_plain(x) for x in v)
+    return v is None or isinstance(v, (bool, int, float, complex, str, np.ndarray, np.generic))
 
 
 def public(n: str) -> bool:
@@ -137,7 +135,7 @@ def tree_of(o, keep: set, depth=0):
         attr = inspect.getattr_static(type(o), n)
         if isinstance(attr, property):
             settable = attr.fset is not None
-            guard = GUARDS.get(cls, {}).get(n) if settable else None
+            guard = ["ref", GUARD_OWNER[cls], n] if settable and cls in GUARD_OWNER else None
             read = (cls in READ_ALL and n not in NO_READ and (settable or n in STORED_RO)) or \
                    (cls in READ_SOME and (n in groups if READ_SOME[cls] is None else n in READ_SOME[cls]))
             if read:
@@ -152,7 +150,16 @@ def tree_of(o, keep: set, depth=0):
             ms.append([n, "class", None, {"leaf": {"t": "opaque", "v": "method"}}])
     for n, v in vars(o).items():
         if public(n):
-            ms.append([n, "inst", None, tree_of(v, keep, depth + 1)])
+            sub = tree_of(v, keep, depth + 1)
+            if "leaf" in sub and not is_plain(v):
+                # an instance attribute that holds an object (a list of models, an Observation, ...), not a value:
+                # an opaque object without settings of its own
+                sub = {"node": "obj", "open": False, "members": []}
+            ms.append([n, "inst", None, sub])
+        elif n in keep:
+            # a private attribute the key names: its value if it holds one, an opaque object otherwise (never descended
+            # into: a private field that holds a configuration object is a second path to settings already listed)
+            ms.append([n, "inst", None, {"leaf": canon(v)} if is_plain(v) else {"node": "obj", "open": False, "members": []}])
         else:
             ms.append([n, "inst", None, {"leaf": {"t": "opaque", "v": "hidden"}}])
     if cls == "Arguments":
@@ -224,7 +231,7 @@ def do_set(p):
         after = {"leaf": {"t": "opaque", "v": "uninspectable:" + exn_name(ex)}}
     try:
         got = proc.get(key)
-        get = {"ok": canon(got) if not _is_node(got) else {"t": "opaque", "v": _node_tag(got)}}
+        get = {"ok": canon_get(key, got)}
     except Exception as ex:  # noqa: BLE001
         get = {"raise": exn_name(ex)}
     return {"before": before, "has": has, "set": set_r, "after": after, "get": get}
@@ -232,6 +239,14 @@ def do_set(p):
 
 def _is_node(o):
     return (isinstance(o, dict) and type(o) is dict) or type(o).__name__ in DESCEND
+
+
+def canon_get(key, got):
+    """what Processor.get returned, as the snapshot shows the same thing"""
+    private = key.split(".")[-1].startswith("_")
+    if not is_plain(got) and (private or not _is_node(got)) and not callable(got):
+        return {"t": "opaque", "v": "obj-closed"}       # an object held by an attribute, listed as an opaque object
+    return canon(got) if not _is_node(got) else {"t": "opaque", "v": _node_tag(got)}
 
 
 def _node_tag(o):
@@ -261,11 +276,10 @@ def do_validate(p):
     keep = set()
     for k in p["keys"]:
         keep |= set(k.split("."))
-        i = k.find(".arguments")
-        keep |= set((k[:i] + ".enabled").split("."))
+        keep.add("enabled")
     before = tree_of(proc, keep)
     steps = [ParameterValues(key=k, values=[1, 2], enabled=en) for k, en in zip(p["keys"], p["step_enabled"])]
-    obs = Observation(parameters=steps, readout=Readout(times=[1.0]))
+    obs = Observation(parameters=steps, readout=Readout(times=[1.0]), mode=p.get("mode", "product"))
     res = None
     try:
         obs.validate_steps(proc)
@@ -284,6 +298,151 @@ def do_validate(p):
     return {"before": before, "validate": res, "ran": ran}
 
 
+# ------------------------------------------------------------------------------------------ derived processors
+
+
+def _nodes_by_path(o, pre=(), depth=0, out=None):
+    """path -> id() of every object a key can walk through (configuration objects, dicts, Arguments, groups, models)."""
+    if out is None:
+        out = {}
+    cls = type(o).__name__
+    if isinstance(o, dict) and type(o) is dict:
+        out[pre] = id(o)
+        for k, v in o.items():
+            if isinstance(k, str):
+                _nodes_by_path(v, pre + (k,), depth + 1, out)
+        return out
+    if cls not in DESCEND or depth > 8:
+        return out
+    out[pre] = id(o)
+    for n in sorted(set(dir(type(o)))):
+        if not public(n):
+            continue
+        attr = inspect.getattr_static(type(o), n)
+        if isinstance(attr, property):
+            read = cls in READ_ALL and n not in NO_READ or \
+                   (cls in READ_SOME and (n in o.MODEL_GROUPS if READ_SOME[cls] is None else n in READ_SOME[cls]))
+            if read:
+                try:
+                    _nodes_by_path(getattr(o, n), pre + (n,), depth + 1, out)
+                except Exception:  # noqa: BLE001 - a getter that refuses to answer holds no object
+                    pass
+    for n, v in vars(o).items():
+        if public(n):
+            _nodes_by_path(v, pre + (n,), depth + 1, out)
+    if cls == "Arguments":
+        for k, v in o._arguments.items():
+            _nodes_by_path(v, pre + (k,), depth + 1, out)
+    if cls == "ModelGroup":
+        for m in o.models:
+            _nodes_by_path(m, pre + (m.name,), depth + 1, out)
+    return out
+
+
+def shared_paths(a, b):
+    """top-most paths of `a` whose object is also reachable (through key components) from `b`: the SAME object."""
+    na, nb = _nodes_by_path(a), _nodes_by_path(b)
+    ids_b = set(nb.values())
+    hit = sorted(p for p, i in na.items() if i in ids_b)
+    top = [p for p in hit if not any(q != p and p[:len(q)] == q for q in hit)]
+    return [list(p) for p in top]
+
+
+def internal_sharing(a):
+    na = _nodes_by_path(a)
+    seen, dup = {}, []
+    for p, i in sorted(na.items()):
+        if i in seen:
+            dup.append([list(seen[i]), list(p)])
+        else:
+            seen[i] = p
+    return dup
+
+
+VIAS = ("deepcopy", "replace", "create_new_processor", "build_processors", "update_processor")
+
+
+def derive(proc, via, key, value):
+    """the real entry points that work on a copy of a processor and assign through keys on that copy"""
+    import copy as _copy
+    if via == "deepcopy":
+        c = _copy.deepcopy(proc)
+        return c, (lambda: c.set(key, value))
+    if via == "replace":
+        return None, (lambda: proc.replace({key: value}))
+    if via == "create_new_processor":
+        from pyxel.observation import create_new_processor
+        return None, (lambda: create_new_processor(proc, parameter_dict={key: value}))
+    if via == "build_processors":
+        from pyxel.calibration.fitting_datatree import build_processors
+        from pyxel.observation import ParameterValues
+        return None, (lambda: build_processors(proc, [ParameterValues(key=key, values=[value])])[0])
+    if via == "update_processor":
+        from types import SimpleNamespace
+        from pyxel.calibration.fitting_datatree import ModelFittingDataTree
+        from pyxel.observation import ParameterValues
+        fake = SimpleNamespace(_variables=[ParameterValues(key=key, values="_")])
+        return None, (lambda: ModelFittingDataTree.update_processor(fake, np.array([value], dtype=float), proc))
+    raise ValueError(via)
+
+
+def plain_copy(proc, via):
+    """a derived processor with no change (made through the same machinery)"""
+    import copy as _copy
+    if via == "replace":
+        return proc.replace({})
+    if via == "create_new_processor":
+        from pyxel.observation import create_new_processor
+        return create_new_processor(proc, parameter_dict={})
+    return _copy.deepcopy(proc)
+
+
+def do_derive(p):
+    """original -> sibling copy (made before) -> copy with `key := value` -> later copy; snapshots of all of them."""
+    proc = make_processor(p)
+    key, via = p["key"], p["via"]
+    keep = set(key.split("."))
+    before = tree_of(proc, keep)
+    try:
+        has = {"ok": bool(proc.has(key))}
+    except Exception as ex:  # noqa: BLE001
+        has = {"raise": exn_name(ex)}
+    value = decode(p["value"])
+    sib = plain_copy(proc, via)
+    sib_before = tree_of(sib, keep)
+    set_r = None
+    c, act = derive(proc, via, key, value)
+    try:
+        r = act()
+        if c is None:
+            c = r
+    except Exception as ex:  # noqa: BLE001
+        set_r = exn_name(ex)
+    target = c if c is not None else proc
+    try:
+        copy_after = tree_of(target, keep) if c is not None else before
+    except Exception as ex:  # noqa: BLE001
+        copy_after = {"leaf": {"t": "opaque", "v": "uninspectable:" + exn_name(ex)}}
+    try:
+        got = target.get(key)
+        get = {"ok": canon_get(key, got)}
+    except Exception as ex:  # noqa: BLE001
+        get = {"raise": exn_name(ex)}
+    orig_after = tree_of(proc, keep)
+    sib_after = tree_of(sib, keep)
+    later = plain_copy(proc, via)
+    later_tree = tree_of(later, keep)
+    shared = []
+    if c is not None:
+        shared = shared_paths(proc, c)
+        for x in shared_paths(sib, c) + shared_paths(proc, sib) + shared_paths(proc, later):
+            if x not in shared:
+                shared.append(x)
+    return {"before": before, "has": has, "set": set_r, "after": copy_after, "get": get,
+            "orig_after": orig_after, "sib_before": sib_before, "sib_after": sib_after, "later": later_tree,
+            "shared": shared, "internal": internal_sharing(proc)[:5]}
+
+
 def handle(p):
     op = p["op"]
     if op == "set":
@@ -292,4 +451,6 @@ def handle(p):
         return do_eval(p)
     if op == "validate":
         return do_validate(p)
+    if op == "derive":
+        return do_derive(p)
     raise ValueError(op)
